@@ -41,7 +41,7 @@ ASSUMPTIONS = [
     "StubDatabase subclass answers get_token / get_port_from_token / get_dependees / get_port / get_input_steps / get_input_ports / get_step with rows shaped as SqliteDatabase returns them; sqlite itself is not under test; DetLoop; logging disabled",
     "availability of a data token is the real Token.is_available (the persisted `recoverable` flag, symbolic); FileToken.is_available (remote path probing through the DataManager) is outside the claim; JobToken availability is its recoverable flag (symbolic in GRAPH; False in STEPS/TWINS, as ScheduleStep persists it)",
     "stub failure manager: is_recovering(job) answers a symbolic boolean per job token (GRAPH) or False (STEPS, TWINS)",
-    "GRAPH: every token sits on its own port with tag '0'; n <= 5 tokens (quick) / 6 (thorough; all DAGs for data tokens, the layered sub-family {1,2}->{3,4}->{5,6} with job tokens); the failed job's inputs are the last one, two or three tokens",
+    "GRAPH: every token sits on its own port with tag '0'; every DAG on n <= 5 tokens (quick: data tokens and one job-token variant; thorough: three job-token variants); thorough also every DAG on 6 data tokens and, with job tokens, the layered sub-family {1,2}->{3,4}->{5,6} (+3->4, 5->6) on 6 tokens; the failed job's inputs are the last one, two or three tokens",
     "STEPS: concrete shapes (chain, diamond, fan-in of two sources, scatter with two tags, transfer pipeline, transformer diamond); every job-running step (execute/transfer) consumes a job port fed by its own schedule step, as the translators build them; each token's dependees are exactly the same-tag tokens on the input ports of its producing step; source ports have no producing step",
     "TWINS: one pair of equal tokens per graph, no provenance edge between the two (no loop iteration feeding its own port); scenarios 'branch' (A->x; B(x), C(x) -> D, A rolled back between B and C) and 'stale_input' (the failed transfer step still holds the pre-rollback token, its job token was re-created from the new one); twins_graph: every DAG on 4 (quick) / 5 (thorough) data tokens with tokens (2,3), (3,4) or (2,4) equal",
     "re-execution counts of the rebuilt recovery workflow are outside the claim; a non-job step (transformer) whose output stayed available may be re-loaded when all its input ports are in the graph for a sibling (observed on the transformer diamond, not asserted against)",
@@ -1045,7 +1045,7 @@ def specs(tier: str):
         out += _graph_specs(5, "TTTTT", [5], 900, cond=3000)
         out += _graph_specs(5, "TJTTJ", [4, 5], 900, cond=3000)
         out += _graph_specs(5, "TTJTT", [3, 4, 5], 900, cond=3000)
-        out += _graph_specs(6, "TTTTTT", [6], 900, cond=3000)
+        out += _graph_specs(6, "TTTTTT", [6], 1500, cond=3600)
         out += _graph_specs(6, "TTTJTJ", [5, 6], 900, absent_edges=LAYERED6, cond=3000, tagname="_layered")
         out += _graph_specs(4, "TTTT", [4], 900, absent_edges=((2, 3),), cond=3000, twins=(2, 3))
         out += _graph_specs(5, "TTTTT", [5], 900, absent_edges=((2, 3),), cond=3000, twins=(2, 3))
